@@ -39,6 +39,12 @@ static zckCtx *mk_scan(IN_sc *in) {
     zckCtx *zck = malloc(sizeof(*zck));
     V_ASSUME(zck != NULL);
     *zck = in->any; zck->error_state = in->err0;
+#ifdef VERIF_SC_HUS
+    zck->has_uncompressed_source = VERIF_SC_HUS;   /* case split (units json "variants"): with / without the uncompressed-source flag */
+#endif
+#ifdef VERIF_SC_WATCH
+    in->watch_full = VERIF_SC_WATCH;                /* case split: the ghost hash model watches the data hash (1) / the chunk hash (0) */
+#endif
     zck->fd = 3;   /* fixed descriptor number: constant index into the per-descriptor ghost arrays (solver cost); the scan only passes it on */
     zck->chunk_hash_type.type = in->ctype; zck->chunk_hash_type.digest_size = SPEC_DIGEST_SIZE(in->ctype);
     zck->hash_type.type = in->htype; zck->hash_type.digest_size = SPEC_DIGEST_SIZE(in->htype);
@@ -76,13 +82,19 @@ static zckCtx *mk_scan(IN_sc *in) {
     g_io_failed = in->failed0;
     return zck;
 }
-#define SC_COVERS(r, zck, in) \
+/* cover goals; the ones that need a particular flag / watched hash exist only in the variants where they are reachable */
+#if !defined(VERIF_SC_HUS) || VERIF_SC_HUS == 0
+#define SC_COVERS_PLAIN(r, zck, in) \
     V_COVER(r == 1 && !zck->header_only && !zck->has_uncompressed_source && in.n_nodes == 2 && g_n1->length > 0 && g_n2->comp_length > SC_BIG); \
+    V_COVER(r == -1 && !zck->header_only && !zck->has_uncompressed_source && in.n_nodes == 2 && g_n1->valid == -1 && g_n2->valid == -1 && g_sc_valid0[0] == 1 && g_sc_valid0[1] == 1 && g_rd_bytes[G_IX(zck->fd)] - in.rd0[G_IX(zck->fd)] == g_scan_total)
+#else
+#define SC_COVERS_PLAIN(r, zck, in) V_COVER(r == 1 && zck->has_uncompressed_source && !zck->header_only && in.n_nodes == 2)
+#endif
+#define SC_COVERS(r, zck, in) \
+    SC_COVERS_PLAIN(r, zck, in); \
     V_COVER(r == 1 && !zck->header_only && g_n1->length == 0 && in.n_nodes == 2); \
-    V_COVER(r == -1 && !zck->header_only && !zck->has_uncompressed_source && in.n_nodes == 2 && in.watch_full && g_hu_final == in.hu_final0 + 1); \
     V_COVER(r == -1 && in.n_nodes == 2 && g_n1->valid == 1 && g_n2->valid == -1); \
-    V_COVER(r == -1 && in.n_nodes == 2 && g_n1->valid == -1 && g_n2->valid == 1 && g_scan_total > 0 && g_rd_bytes[G_IX(zck->fd)] - in.rd0[G_IX(zck->fd)] < g_scan_total); \
-    V_COVER(r == 1 && zck->header_only && in.n_nodes == 2); V_COVER(r == 1 && zck->has_uncompressed_source && !zck->header_only); \
+    V_COVER(r == 1 && zck->header_only && in.n_nodes == 2); \
     V_COVER(r == 0 && in.err0 == 0 && zck->mode == ZCK_MODE_READ && zck->data_offset != 0 && g_rd_bytes[G_IX(zck->fd)] > in.rd0[G_IX(zck->fd)])
 
 void h_validate_checksums(void) {
@@ -110,9 +122,13 @@ void h_zck_validate_data_checksum(void) {
     IN_sc in = nondet_IN_sc();
     zckCtx *zck = mk_scan(&in);
     int r = zck_validate_data_checksum(zck);
-    V_COVER(r == 1 && !zck->has_uncompressed_source && in.n_nodes == 2 && g_n1->comp_length > 0 && g_n2->comp_length > SC_BIG && in.watch_full);
-    V_COVER(r == -1 && !zck->has_uncompressed_source); V_COVER(r == 1 && zck->has_uncompressed_source);
+#if !defined(VERIF_SC_HUS) || VERIF_SC_HUS == 0
+    V_COVER(r == 1 && !zck->has_uncompressed_source && in.n_nodes == 2 && g_n1->comp_length > 0 && g_n2->comp_length > SC_BIG);
+    V_COVER(r == -1 && !zck->has_uncompressed_source);
     V_COVER(r == 0 && in.err0 == 0 && zck->mode == ZCK_MODE_READ && !zck->has_uncompressed_source && g_rd_bytes[G_IX(zck->fd)] > in.rd0[G_IX(zck->fd)]);
+#else
+    V_COVER(r == 1 && zck->has_uncompressed_source); V_COVER(r == -1 && zck->has_uncompressed_source);
+#endif
 }
 
 #ifdef VERIF_NATIVE
